@@ -62,6 +62,7 @@ void h_mu_wait (void) {
 void h_unlock_without_wakeup (void) {
 	setup (VP_WRITER, 0, 0);
 	vp_g.release_ctx = 1;
+	vp_g.no_wakeup_ctx = 1;
 	nsync_mu_unlock_without_wakeup (&the_mu);
 	VP_CANARY ();
 }
